@@ -22,10 +22,12 @@ REQUIRED_PROBES = {"quick": ("two_outstanding", "reply_permuted", "reply_late", 
                                 "multi_block_reply", "multi_block_unsolicited")}
 EVIDENCE = {
     "level": "exploration",
-    "rule": ("2-5 simulated caller threads x 1-6 token-carrying requests; the peer answers each per plan (now, delayed, "
-             "permuted, after T3, never, twice), injects numbered unsolicited primaries, and the link is cut and "
-             "re-established; a run is non-trivial when >=2 requests were outstanding at the same time; distinct = "
-             "distinct (callers, reply-mode multiset, #faults, #unsolicited bucket, scheduler, pre-emption class)"),
+    "rule": ("2-5 simulated caller threads x 1-6 token-carrying requests; the peer answers each per plan (now, "
+             "delayed, permuted, after T3, never, twice), injects numbered unsolicited primaries, and the link is "
+             "cut and re-established; 15 % of the runs use the SECS-I transport instead (library = host, replies "
+             "and unsolicited primaries of 1-5 blocks, ENQ contention); a run is non-trivial when >=2 requests "
+             "were outstanding at the same time; distinct = distinct (callers, reply-mode multiset, #faults, "
+             "#unsolicited bucket, scheduler, pre-emption class)"),
     "real": ["secsgem.common.Protocol (send_and_waitfor_response, get_next_system_counter, response queues)",
              "secsgem.common.ProtocolDispatcher", "secsgem.hsms.HsmsProtocol", "secsgem.common.Tcp*Connection"],
     "stub": ["socket/select (SimSocket)", "threading/queue/time facades", "peer (reference E37/E5 codecs)"],
